@@ -1104,7 +1104,36 @@ impl<'a> Compiler<'a> {
                             }
                         }
                     }
-                    _ => ice!("Expected record, got {} at {}", typ, pattern),
+                    // The type is not a record even after removing aliases: a type variable,
+                    // which means that the matched expression never produces a value
+                    // (`let { x } = error ".."`). Bind the variables of the pattern by name so
+                    // that the rest of the function still compiles
+                    _ => {
+                        function.new_stack_var(
+                            self,
+                            self.empty_symbol.clone(),
+                            self.hole.clone(),
+                        );
+
+                        let record_index = function.stack_size() - 1;
+                        for pattern_field in fields {
+                            function.emit(Push(record_index));
+                            let interned = self.intern(pattern_field.0.name.as_ref())?;
+                            let index = function.add_string_constant(interned);
+                            function.emit(GetField(index));
+
+                            let field_name = pattern_field
+                                .1
+                                .as_ref()
+                                .unwrap_or(&pattern_field.0.name)
+                                .clone();
+                            function.new_stack_var(
+                                self,
+                                field_name,
+                                pattern_field.0.typ.clone(),
+                            );
+                        }
+                    }
                 }
             }
             Pattern::Constructor(..) => ice!("constructor pattern in let"),
